@@ -39,3 +39,6 @@ PROBES = list(PROBES) + ["task-switch-after-a-read"]
 RULE = RULE + (" Round 10: in 12% of the scenarios a scheduling point follows read k (k in 0..3) of one of the two calls: another task of the process - another beam of the same shape, "
                "its own reader - runs the same reduction to completion before the interrupted call sees its data (the thread switch that the GIL release in readinto allows, made deterministic).")
 COMPONENTS = {**COMPONENTS, "simulated": list(COMPONENTS["simulated"]) + ["task scheduling between two reductions: a hand-over at the read seam (one switch per call, chosen by the scenario)"]}
+
+# dimensions added in seeded round 11
+RULE = RULE + " Round 11: 0.2% of runs (0.6% thorough) reduce ONE block of ten million samples x channels (1024-3072 channels) with gulps 10000 / 9999 / N-7 and again at gulp 512."
